@@ -45,8 +45,12 @@ def scell(N, body, pre_n, post_n, T=60, **extra):
     strs = ['s%d' % i for i in range(N)]
     pre = str_pre(strs + ['c0', 'c1']) + distinct(strs) + ['0 <= u0 < %d' % N]
     cid = 'C04/roStorySend/N%d/body-%s/pre%d/post%d' % (N, body or 'empty', pre_n, post_n)
+    for key, v in extra.items():
+        cid += '/%s%s' % (key, v)
+    # concrete anchor: texts that still look like markup / entity references after parsing, non-BMP characters
+    ex = {'s0': "'", 's1': '"', 's2': ',', 'c0': '&lt;b&gt; AT&amp;T &#233; \U0001F600', 'c1': 'x &amp;#12; y', 'u0': N - 1}
     return Cell(pid=PID, cid=cid, harness='h_payload:send_cell', params=P, sym=sym, pre=pre,
-                stubs=('hash',), timeout=T, cost=N)
+                stubs=('hash',), timeout=T, cost=N, example={k: v for k, v in ex.items() if k in dict(sym)})
 
 
 def mcell(pid, prop, carry, N=2, T=60, sym_schema=True, **extra):
